@@ -298,7 +298,7 @@ def random_value(rnd, t):
             return {"k": "float", "id": rnd.choice(list(SPELL)), "key": key}
         if kind == "bool":
             return {"k": "bool", "id": rnd.choice(["true", "false"]), "key": key}
-        return {"k": "str", "id": rnd.choice(["abc", "x y", "a1", "v-1", "A_b"]), "key": key}
+        return {"k": "str", "id": rnd.choice(["abc", "x y", "a1", "v-1", "A_b", "a=b", "k=v=w", "p:q"]), "key": key}
 
     r = rnd.random()
     if t["c"] == "scalar" and t["st"] == "str":
